@@ -232,6 +232,7 @@ package smf
 //@ ensures [P:C10] old(r.input.sfault) != nil && old(r.error) == nil ==> err != nil
 //@ ensures [H] old(r.error) == nil ==> err != ErrFinished
 //@ ensures [H] old(r.input.sgreedy) && old(r.input.sfault) == nil ==> r.input.sfault == nil
+//@ ensures [P:C05] old(r.error) == nil && (old(r.input.sfault) != nil || old(r.input.spos) == old(r.input.sn)) ==> err == utils.ErrUnexpectedEOF
 //@ ensures [H] old(r.input.spos) <= r.input.spos && r.input.spos <= r.input.sn
 //@ ensures [H] r.input.sfault == nil ==> old(r.input.sfault) == nil
 
@@ -261,6 +262,7 @@ package smf
 //@ ensures [P:C02] err == nil && r.expectChunk ==> (len(m) >= 2 && m[0] == 0xFF && m[1] == 0x2F)
 //@ ensures [P:C02] err == nil && r.isDone && !old(r.isDone) ==> (len(m) >= 2 && m[0] == 0xFF && m[1] == 0x2F)
 //@ ensures [P:C05] err == nil && len(m) == 0 ==> ((r.input.sfault != nil || r.input.spos == r.input.sn) && !r.expectChunk && !r.isDone)
+//@ ensures [P:C05] (!old(r.isDone) && !old(r.expectChunk) && old(r.error) == nil && (old(r.input.sfault) != nil || old(r.input.spos) == old(r.input.sn))) ==> err == utils.ErrUnexpectedEOF
 //@ ensures [P:C10] err == io.EOF ==> r.input.sfault == nil
 //@ ensures [P:C10] err == ErrFinished ==> old(r.isDone)
 //@ ensures [H] old(r.isDone) ==> (err == ErrFinished && r.isDone && r.input.spos == old(r.input.spos) && r.input.sfault == old(r.input.sfault))
@@ -271,6 +273,7 @@ package smf
 //@ loop 0 invariant old(r.input.spos) <= r.input.spos && r.input.spos <= r.input.sn && (r.input.sfault == nil ==> old(r.input.sfault) == nil)
 //@ loop 0 invariant errOK(r)
 //@ loop 0 invariant rrs(r) == old(rrs(r)) && r.isDone == old(r.isDone)
+//@ loop 0 invariant !old(r.expectChunk) ==> (!r.expectChunk && r.error == old(r.error) && r.input.spos == old(r.input.spos) && r.input.sfault == old(r.input.sfault))
 //@ loop 0 decreases (r.error == nil ? 1 : 0) + r.input.sn - r.input.spos
 
 //@ func (*reader).Read
@@ -288,6 +291,7 @@ package smf
 //@ ensures [P:C02] err == nil && r.expectChunk ==> (len(m) >= 2 && m[0] == 0xFF && m[1] == 0x2F)
 //@ ensures [P:C02] err == nil && r.isDone && !old(r.isDone) ==> (len(m) >= 2 && m[0] == 0xFF && m[1] == 0x2F)
 //@ ensures [P:C05] err == nil && len(m) == 0 ==> ((r.input.sfault != nil || r.input.spos == r.input.sn) && !r.expectChunk && !r.isDone)
+//@ ensures [P:C05] (!old(r.isDone) && !old(r.expectChunk) && old(r.error) == nil && (old(r.input.sfault) != nil || old(r.input.spos) == old(r.input.sn))) ==> err == utils.ErrUnexpectedEOF
 //@ ensures [P:C10] err == io.EOF ==> r.input.sfault == nil
 //@ ensures [P:C10] err == ErrFinished ==> old(r.isDone)
 //@ ensures [H] old(r.isDone) ==> r.isDone
@@ -336,11 +340,15 @@ package smf
 //@ ensures [H] trkInv(r)
 //@ ensures [P:C10] err == io.EOF ==> r.input.sfault == nil
 //@ ensures [P:C10] err == ErrFinished ==> r.isDone
+// nothing is invented: the empty message that _readEvent hands out when the last data byte of a channel message is
+// missing never survives into a file that is returned (the next read fails with ErrUnexpectedEOF)
+//@ ensures [P:C05] (old(forall i int :: 0 <= i && i < len(r.SMF.Tracks) ==> nonEmptyT(r.SMF.Tracks[i])) && (err == io.EOF || err == ErrFinished)) ==> forall i int :: 0 <= i && i < len(r.SMF.Tracks) ==> nonEmptyT(r.SMF.Tracks[i])
 //@ ensures [H] old(r.input.spos) <= r.input.spos && r.input.spos <= r.input.sn
 //@ loop 0 invariant rdInv(r) && r.headerIsRead && r.SMF == old(r.SMF) && r.input == old(r.input) && r.runningStatus == old(r.runningStatus)
 //@ loop 0 invariant trkInv(r)
 //@ loop 0 invariant errOK(r) && r.error == nil
 //@ loop 0 invariant r.SMF.format == old(r.SMF.format) && r.SMF.numTracks == old(r.SMF.numTracks) && r.SMF.TimeFormat == old(r.SMF.TimeFormat) && r.SMF.Tracks == old(r.SMF.Tracks)
+//@ loop 0 invariant old(forall i int :: 0 <= i && i < len(r.SMF.Tracks) ==> nonEmptyT(r.SMF.Tracks[i])) ==> ((forall i int :: 0 <= i && i < len(r.SMF.Tracks) ==> nonEmptyT(r.SMF.Tracks[i])) || (!r.isDone && !r.expectChunk && (r.input.sfault != nil || r.input.spos == r.input.sn)))
 //@ loop 0 invariant tcsOK(r.SMF.tempoChanges) && (r.SMF.tempoChanges == old(r.SMF.tempoChanges) || fresh(r.SMF.tempoChanges))
 //@ loop 0 invariant old(r.input.spos) <= r.input.spos && r.input.spos <= r.input.sn
 //@ loop 0 decreases r.input.sn - r.input.spos
@@ -364,6 +372,7 @@ package smf
 //@ ensures [P:C02] result1 == nil && hdrMetric(f.sdata, old(f.spos) + 8) ==> (typeof(result0.TimeFormat) == typeid(MetricTicks) && uint16(bval(result0.TimeFormat)) == be16(f.sdata, old(f.spos) + 12))
 //@ ensures [P:C02] result1 == nil && !hdrMetric(f.sdata, old(f.spos) + 8) ==> (typeof(result0.TimeFormat) == typeid(TimeCode) && asptr(result0.TimeFormat, TimeCode).FramesPerSecond == 0 - f.sdata[old(f.spos) + 12] && asptr(result0.TimeFormat, TimeCode).SubFrames == f.sdata[old(f.spos) + 13])
 //@ ensures [P:C05] result1 != nil ==> result0 == nil
+//@ ensures [P:C05] result1 == nil ==> forall i int :: 0 <= i && i < len(result0.Tracks) ==> nonEmptyT(result0.Tracks[i])
 //@ ensures [H] old(f.spos) <= f.spos && f.spos <= f.sn
 //@ loop 0 invariant -1 <= rangeindex && rangeindex < len(opts)
 //@ loop 0 decreases len(opts) - rangeindex
